@@ -688,6 +688,12 @@ func (g *Gen) resolveLocal(name string, at *ssa.BasicBlock, h *Heap) (Val, bool)
 		}
 	}
 	refs := g.namedLocal[name]
+	if os.Getenv("GOVC_DEBUGNAME") == name {
+		for _, d := range refs {
+			_, has := g.vals[d.X]
+			fmt.Fprintf(os.Stderr, "DEBUGNAME %s: ref in block %d X=%v (%T) hasVal=%v dominates(at=%d)=%v\n", name, d.Block().Index, d.X, d.X, has, at.Index, d.Block().Dominates(at))
+		}
+	}
 	var best *ssa.DebugRef
 	for _, d := range refs {
 		db := d.Block()
@@ -708,6 +714,29 @@ func (g *Gen) resolveLocal(name string, at *ssa.BasicBlock, h *Heap) (Val, bool)
 		}
 		if best == nil || best.Block().Dominates(db) {
 			best = d
+		}
+	}
+	if best == nil || isConstValue(best.X) {
+		// The dominating reference (if any) only records the variable's zero value. If every other reference names
+		// one and the same SSA value whose definition dominates `at`, that value is the variable (it is assigned once).
+		var only ssa.Value
+		consistent := true
+		for _, d := range refs {
+			if isConstValue(d.X) || d.IsAddr {
+				continue
+			}
+			if only == nil {
+				only = d.X
+			} else if only != d.X {
+				consistent = false
+			}
+		}
+		if only != nil && consistent {
+			if in, ok := only.(ssa.Instruction); ok && in.Block() != nil && (in.Block() == at || in.Block().Dominates(at)) {
+				if v, ok := g.vals[only]; ok {
+					return v, true
+				}
+			}
 		}
 	}
 	// a phi carrying the variable's name in a dominating block is a (re)definition too: if it is later than the
@@ -744,6 +773,11 @@ func (g *Gen) resolveLocal(name string, at *ssa.BasicBlock, h *Heap) (Val, bool)
 		return g.load(h, g.ptrOf(v)), true
 	}
 	return v, true
+}
+
+func isConstValue(v ssa.Value) bool {
+	_, ok := v.(*ssa.Const)
+	return ok
 }
 
 // tryEval evaluates e; an unknown name is reported as !ok (events emitted meanwhile are rolled back).
